@@ -19,6 +19,11 @@ echo $ids | tr ' ' '\n' | xargs -P $par -I{} bash -c 'one {}' > /tmp/seed_regres
 python3 - <<'PY'
 import json
 rows=[json.loads(l) for l in open('/tmp/seed_regress.jsonl') if l.strip()]
+try:  # a partial run (ids given) updates the rows it re-evaluated and keeps the others
+    old={r['id']:r for r in json.load(open('/verif/seeded/regression.json'))}
+except Exception:
+    old={}
+old.update({r['id']:r for r in rows}); rows=list(old.values())
 rows.sort(key=lambda r:(r['id'][:3],int(r['id'].split('-')[1])))
 json.dump(rows,open('/verif/seeded/regression.json','w'),indent=1)
 bad=[r for r in rows if r['applies'] and not (r['rc']==1 and (r['concrete'] or r['nfi']))]
